@@ -19,6 +19,7 @@ HORIZON_S = 1000.0  # > 900 virtual seconds after any fault (fault-free runs tak
 PLAN: dict = {}
 FIRED: list = []
 CLUSTER: list = [None]
+REAL: list = [False]  # set by vf.realcluster: faults act on real OS processes
 
 
 def _maybe_fault(name: str, point: int):
@@ -29,6 +30,11 @@ def _maybe_fault(name: str, point: int):
             raise RuntimeError(f"injected failure in {name} at {point}")
         if p["kind"] == "exit":
             sys.exit(3)
+        if p["kind"] == "kill" and REAL[0]:
+            import os
+            import signal
+
+            os.kill(os.getpid(), signal.SIGKILL)
         if p["kind"] == "kill":
             S = CLUSTER[0].sched
             S.current.killed = True
@@ -191,6 +197,8 @@ def run(ctx):
             for sig, msg, rp in viols:
                 ctx.add_violation(common.Violation(sig, msg, rp))
         ctx.sample({"cfg": cfg, "fault_free": {k: base[k] for k in ("steps", "virtual_s", "procs")}, "example_fault": cases[len(cases) // 2][1]}, cap=3)
+    real = real_validation(ctx, ctx.pick(2, 8))
+    ctx.coverage["real_process_validations"] = real
     ctx.coverage.update(
         evaluations=evaluations, distinct_nontrivial=len(fired), exhaustive=all("stride" not in c for c in cfgs), outcomes=histogram,
         rule="per (job, cluster shape): every task x every body point (before the first output, after k of N outputs, after the last) x {raise, sys.exit(3), kill}; every helper process (worker, data server, shm server) x every scheduler step of the fault-free default schedule (stride given per config). Non-trivial = the fault actually fired before the run ended (distinct by victim x point x kind)",
@@ -201,6 +209,72 @@ def run(ctx):
                "faults of the executor process itself or of the controller are excluded by the property")
 
 
+REAL_FAULTS = [
+    {"job": "chain2", "hosts": 1, "workers": 1, "fault": {"type": "body", "task": "t0", "point": 0, "kind": "raise"}},
+    {"job": "chain2", "hosts": 1, "workers": 1, "fault": {"type": "body", "task": "t1", "point": 0, "kind": "kill"}},
+    {"job": "chain2", "hosts": 1, "workers": 1, "fault": None},
+    {"job": "fork3", "hosts": 1, "workers": 2, "fault": {"type": "body", "task": "t0", "point": 2, "kind": "exit"}},
+    {"job": "fork3", "hosts": 2, "workers": 1, "fault": {"type": "body", "task": "t0", "point": 1, "kind": "raise"}},
+    {"job": "diamond", "hosts": 2, "workers": 1, "fault": {"type": "body", "task": "t3", "point": 0, "kind": "kill"}},
+    {"job": "diamond", "hosts": 2, "workers": 2, "fault": None},
+    {"job": "fork3", "hosts": 1, "workers": 2, "fault": {"type": "body", "task": "t0", "point": 3, "kind": "kill"}},
+]
+
+
+def real_validation(ctx, n: int) -> list:
+    """A fixed list of faults replayed on a real multi-process local cluster; the outcome class must be the one the
+    virtual cluster predicts and nothing may be left behind. These runs validate the model; the verdict on the
+    property comes from the enumeration."""
+    import json
+    import os
+    import subprocess
+    import sys
+
+    out = []
+    for spec in REAL_FAULTS[:n]:
+        cfg = {k: spec[k] for k in ("job", "hosts", "workers")}
+        virt = execute(cfg, spec["fault"])
+        v_outcome = "hang" if virt["phase1"] != "done" else ("returned" if virt["returned"] else "raised")
+        env = dict(os.environ, PYTHONPATH=f"/repo/src:{common.VERIF}")
+        try:
+            r = subprocess.run([sys.executable, "-W", "ignore", "-m", "vf.realcluster", json.dumps(dict(spec, deadline_s=90))], capture_output=True, text=True,
+                               timeout=180, env=env, start_new_session=True, cwd=common.VERIF)
+        except subprocess.TimeoutExpired:
+            raise common.HarnessError(f"real cluster validation run timed out: {spec}")
+        line = [ln for ln in r.stdout.splitlines() if ln.startswith("RESULT")]
+        if not line:
+            raise common.HarnessError(f"real cluster validation run produced no result: {spec}\n{r.stderr[-800:]}")
+        real = json.loads(line[0][6:])
+        import glob
+
+        for h in real.get("hostnames", []):
+            for f in glob.glob(f"/tmp/{h}.*.socket"):
+                try:
+                    os.unlink(f)
+                except OSError:
+                    pass
+        for f in real["shm_left"]:
+            try:
+                os.unlink(os.path.join("/dev/shm", f))
+            except OSError:
+                pass
+        rec = {"spec": spec, "virtual": v_outcome, "real": real["outcome"], "real_wall_s": real["wall_s"], "executors_alive": real["executors_alive"], "shm_left": real["shm_left"]}
+        out.append(rec)
+        rp = {"cfg": cfg, "fault": spec["fault"], "real": True}
+        victim = "no fault" if spec["fault"] is None else f"task body {spec['fault']['kind']}"
+        if real["outcome"] == "hang":
+            ctx.add_violation(common.Violation({"monitor": "run_hangs", "cause": f"real processes, {victim}: controller still waiting after 90 s"}, f"{rec}", rp))
+        elif real["wrong"]:
+            ctx.add_violation(common.Violation({"monitor": "wrong_value", "cause": f"real processes, {victim}: wrong value"}, f"{rec}", rp))
+        elif real["executors_alive"] or real["shm_left"]:
+            ctx.add_violation(common.Violation({"monitor": "processes_left_behind" if real["executors_alive"] else "segments_left_behind", "cause": f"real processes, {victim}: leftovers after the run"}, f"{rec}", rp))
+        if real["outcome"] != v_outcome and real["outcome"] != "hang":
+            raise common.HarnessError(f"virtual cluster predicts '{v_outcome}' but the real cluster gave '{real['outcome']}' for {spec}: the model misrepresents the code")
+    return out
+
+
 def replay(ctx, data):
+    if data.get("real"):
+        return []
     rec = execute(data["cfg"], data["fault"])
     return [common.Violation(sig, msg, rp) for sig, msg, rp in judge(data["cfg"], data["fault"], rec)]
